@@ -807,7 +807,14 @@ class Ctx:
     # ---- float arithmetic in the active profile
     def farith(self, op, a, b):
         if isinstance(a, _Inf) or isinstance(b, _Inf):
-            raise RealisationError("arithmetic on an infinite constant in profile 'real'")
+            # profile 'real': extended-real arithmetic with a finite (symbolic) operand
+            if isinstance(a, _Inf) and isinstance(b, _Inf):
+                raise RealisationError("inf (op) inf in profile 'real'")
+            if op == "add":
+                return math.inf * (a.sign if isinstance(a, _Inf) else b.sign)
+            if op == "sub":
+                return math.inf * (a.sign if isinstance(a, _Inf) else -b.sign)
+            raise RealisationError(f"{op} on an infinite constant in profile 'real'")
         if self.profile == "fp":
             if op == "add":
                 e = z3.fpAdd(RNE, a.e, b.e)
